@@ -107,6 +107,16 @@ def guard_holds(cond, val, env):
     return v == int(val)
 
 
+def guard_holds_with(evf, cond, val, env):
+    """guard_holds with a caller-supplied evaluator (rules that introduce their own terms)"""
+    v = evf(cond, env)
+    if v is None:
+        return None
+    if isinstance(val, tuple):
+        return v not in val[1]
+    return v == int(val)
+
+
 def consistent(guards, env):
     """False when some recorded decision contradicts env; guards env does not determine are ignored"""
     for c, val, loc in guards:
